@@ -47,5 +47,7 @@ for path in sorted(glob.glob(os.path.join(HERE, 'mutants', '*.json'))):
     finally:
         shutil.rmtree(scratch, ignore_errors=True)
     print('%-40s %-8s %-12s %s' % rows[-1], flush=True)
+json.dump({r[0]: {'property': r[1], 'repository_tests': r[2], 'result': r[3]} for r in rows},
+          open(os.path.join(HERE, 'mutants', 'RESULTS.json'), 'w'), indent=1, sort_keys=True)
 missed = [r for r in rows if 'MISSED' in r[3] or 'NOT-APPLY' in r[2]]
 print('\n%d mutants, %d not caught' % (len(rows), len(missed)))
